@@ -121,6 +121,9 @@ namespace bxdecay0 {
             ps = PS_USAGE;
             break;
           } else if (arg == "-g" or arg == "--logging") {
+            if (iarg + 1 >= (int) _args_.size()) {
+              throw std::logic_error("bxdecay0::cl_parser::parse: missing value for option '" + arg + "'!");
+            }
             std::string token = _args_[++iarg];
             driver::logging_type logging =  driver::logging_from_string(token);
             if (logging == driver::LOGGING_UNDEFINED) {
@@ -128,6 +131,9 @@ namespace bxdecay0 {
             }
             config_.logging = logging;
           } else if (arg == "-n" or arg == "--nb-events") {
+            if (iarg + 1 >= (int) _args_.size()) {
+              throw std::logic_error("bxdecay0::cl_parser::parse: missing value for option '" + arg + "'!");
+            }
             std::string token = _args_[++iarg];
             int nb_events = std::stoi(token);
             if (nb_events < 1) {
@@ -135,6 +141,9 @@ namespace bxdecay0 {
             }
             config_.nb_events = nb_events;
           } else if (arg == "-s" or arg == "--seed") {
+            if (iarg + 1 >= (int) _args_.size()) {
+              throw std::logic_error("bxdecay0::cl_parser::parse: missing value for option '" + arg + "'!");
+            }
             std::string token = _args_[++iarg];
             int seed = std::stoi(token);
             if (seed < 0) {
@@ -142,9 +151,15 @@ namespace bxdecay0 {
             }
             config_.seed = seed;
           } else if (arg == "-N" or arg == "--nuclide") {
+            if (iarg + 1 >= (int) _args_.size()) {
+              throw std::logic_error("bxdecay0::cl_parser::parse: missing value for option '" + arg + "'!");
+            }
             std::string token = _args_[++iarg];
             config_.nuclide = token;
           } else if (arg == "-l" or arg == "--level") {
+            if (iarg + 1 >= (int) _args_.size()) {
+              throw std::logic_error("bxdecay0::cl_parser::parse: missing value for option '" + arg + "'!");
+            }
             std::string token = _args_[++iarg];
             int level = std::stoi(token);
             if (level < 0) {
@@ -152,6 +167,9 @@ namespace bxdecay0 {
             }
             config_.level = level;
           } else if (arg == "-c" or arg == "--decay-category") {
+            if (iarg + 1 >= (int) _args_.size()) {
+              throw std::logic_error("bxdecay0::cl_parser::parse: missing value for option '" + arg + "'!");
+            }
             std::string token = _args_[++iarg];
             if (token == "dbd") {
               config_.decay_category = decay0_generator::DECAY_CATEGORY_DBD;
@@ -161,6 +179,9 @@ namespace bxdecay0 {
               throw std::logic_error("bxdecay0::cl_parser::parse: unsupported decay category '" + token + "'!");
             }
           } else if (arg == "-m" or arg == "--dbd-mode") {
+            if (iarg + 1 >= (int) _args_.size()) {
+              throw std::logic_error("bxdecay0::cl_parser::parse: missing value for option '" + arg + "'!");
+            }
             std::string token = _args_[++iarg];
             int dbd_mode = std::stoi(token);
             if (dbd_mode < DBDMODE_MIN or dbd_mode > DBDMODE_MAX) {
@@ -168,6 +189,9 @@ namespace bxdecay0 {
             }
             config_.dbd_mode = static_cast<dbd_mode_type>(dbd_mode);
           } else if (arg == "-e" or arg == "--dbd-emin") {
+            if (iarg + 1 >= (int) _args_.size()) {
+              throw std::logic_error("bxdecay0::cl_parser::parse: missing value for option '" + arg + "'!");
+            }
             std::string token = _args_[++iarg];
             double dbd_emin = std::stod(token);
             if (dbd_emin < 0.0) {
@@ -175,6 +199,9 @@ namespace bxdecay0 {
             }
             config_.energy_min_MeV = dbd_emin;
           } else if (arg == "-E" or arg == "--dbd-emax") {
+            if (iarg + 1 >= (int) _args_.size()) {
+              throw std::logic_error("bxdecay0::cl_parser::parse: missing value for option '" + arg + "'!");
+            }
             std::string token = _args_[++iarg];
             double dbd_emax = std::stod(token);
             if (dbd_emax < 0.0) {
@@ -182,6 +209,9 @@ namespace bxdecay0 {
             }
             config_.energy_max_MeV = dbd_emax;
           } else if (arg == "-a" or arg == "--activity") {
+            if (iarg + 1 >= (int) _args_.size()) {
+              throw std::logic_error("bxdecay0::cl_parser::parse: missing value for option '" + arg + "'!");
+            }
             std::string token = _args_[++iarg];
             double activity = std::stod(token);
             if (activity < 0.0) {
@@ -189,25 +219,43 @@ namespace bxdecay0 {
             }
             config_.activity_Bq = activity;
           } else if (arg == "-b" or arg == "--basename") {
+            if (iarg + 1 >= (int) _args_.size()) {
+              throw std::logic_error("bxdecay0::cl_parser::parse: missing value for option '" + arg + "'!");
+            }
             std::string token = _args_[++iarg];
             config_.basename = token;
           } else if (arg == "--pgop-mdl-particle") {
+            if (iarg + 1 >= (int) _args_.size()) {
+              throw std::logic_error("bxdecay0::cl_parser::parse: missing value for option '" + arg + "'!");
+            }
             std::string token = _args_[++iarg];
             config_.use_mdl = true;
             config_.mdl_config.particle_label = token;
           } else if (arg == "--pgop-mdl-rank") {
+            if (iarg + 1 >= (int) _args_.size()) {
+              throw std::logic_error("bxdecay0::cl_parser::parse: missing value for option '" + arg + "'!");
+            }
             std::string token = _args_[++iarg];
             config_.use_mdl = true;
             config_.mdl_config.target_particle_rank = std::stoi(token);
           } else if (arg == "--pgop-mdl-cone-phi") {
+            if (iarg + 1 >= (int) _args_.size()) {
+              throw std::logic_error("bxdecay0::cl_parser::parse: missing value for option '" + arg + "'!");
+            }
             std::string token = _args_[++iarg];
             config_.use_mdl = true;
             config_.mdl_config.cone_phi_degree = std::stod(token);
           } else if (arg == "--pgop-mdl-cone-theta") {
+            if (iarg + 1 >= (int) _args_.size()) {
+              throw std::logic_error("bxdecay0::cl_parser::parse: missing value for option '" + arg + "'!");
+            }
             std::string token = _args_[++iarg];
             config_.use_mdl = true;
             config_.mdl_config.cone_theta_degree = std::stod(token);
           } else if (arg == "--pgop-mdl-cone-aperture") {
+            if (iarg + 1 >= (int) _args_.size()) {
+              throw std::logic_error("bxdecay0::cl_parser::parse: missing value for option '" + arg + "'!");
+            }
             std::string token = _args_[++iarg];
             config_.use_mdl = true;
             config_.mdl_config.cone_aperture_degree = std::stod(token);
